@@ -106,27 +106,41 @@ def find_class(mod, cname, _depth=0):
 
 
 def mro(mod, cname):
-    """Linearised (depth-first, left-to-right, first occurrence) list of (module, ClassDef).
-    tenpy's verified classes use single inheritance or simple mixins, for which this equals C3."""
-    out = []
-    seen = set()
-
-    def visit(m, cn):
-        try:
-            m2, cd = find_class(m, cn)
-        except SourceError:
-            return
-        if (m2.relpath, cd.name) in seen:
-            return
-        seen.add((m2.relpath, cd.name))
-        out.append((m2, cd))
+    """C3 linearisation (as CPython) over the classes found in the repo: list of (module, ClassDef).
+    Bases that are not repo classes (object, Exception, ...) are ignored."""
+    def bases_of(m, cd):
+        out = []
         for b in cd.bases:
-            if isinstance(b, ast.Name):
-                visit(m2, b.id)
-            elif isinstance(b, ast.Attribute):
-                visit(m2, b.attr)
-    visit(mod, cname)
-    return out
+            bn = b.id if isinstance(b, ast.Name) else (b.attr if isinstance(b, ast.Attribute) else None)
+            if bn is None:
+                continue
+            try:
+                out.append(find_class(m, bn))
+            except SourceError:
+                pass
+        return out
+
+    def lin(m, cd):
+        seqs = [lin(bm, bcd) for bm, bcd in bases_of(m, cd)] + [[(bm, bcd) for bm, bcd in bases_of(m, cd)]]
+        res = [(m, cd)]
+        seqs = [list(x) for x in seqs if x]
+        key = lambda e: (e[0].relpath, e[1].name)
+        while seqs:
+            for sq in seqs:
+                cand = sq[0]
+                if not any(key(cand) in [key(e) for e in o[1:]] for o in seqs):
+                    break
+            else:
+                raise SourceError(f'inconsistent MRO for {cd.name}')
+            res.append(cand)
+            seqs = [[e for e in sq if key(e) != key(cand)] for sq in seqs]
+            seqs = [sq for sq in seqs if sq]
+        return res
+    try:
+        m0, cd0 = find_class(mod, cname)
+    except SourceError:
+        return []
+    return lin(m0, cd0)
 
 
 def find_method(mod, cname, mname):
